@@ -225,6 +225,30 @@ pub fn run(ctx: &Ctx) -> i32 {
         }
     });
 
+    // ---- monitor 3: which construct.  In the one-token-per-line layout a line names a token; every MUST construct of the
+    // spec tables (DESIGN.md section 8) must be reported on the line of (one of) its designated first token(s).
+    let nw = ctx.tier.pick(400u64, 6000u64);
+    run_workload(ctx, &mut acc, "which-construct", nw, |k, rng, acc| {
+        let mut cfg = Cfg::normal();
+        cfg.pragma = Some(rng.ps(&["0.8.17", "0.7.6", "0.8.3"]).to_string());
+        cfg.safemath = rng.chance(1, 2);
+        let mut b = crate::gen::Builder::new(rng, cfg);
+        let f = b.file();
+        drop(b);
+        if let Some(p) = crate::mon::specmon::prepare(f, acc) {
+            let mut local = Acc::default();
+            local.cur_workload = acc.cur_workload.clone();
+            local.cur_k = acc.cur_k;
+            let all: Vec<&'static str> = crate::spec::SPEC_DETECTORS.iter().copied().filter(|d| !d.starts_with("pack_")).collect();
+            crate::mon::specmon::judge(&p, &format!("gen#{}", k), &all, Layout::OneTokenPerLine, rng, &mut local, &json!(null));
+            acc.evals_n(local.evals);
+            acc.cov_n("which-construct:judgements", local.evals);
+            for v in local.viol {
+                acc.viol.push(Viol { signature: format!("which:{}", v.signature), ..v });
+            }
+        }
+    });
+
     if ctx.replay.is_none() {
         for l in ["no_final_newline", "crlf", "random", "one_token_per_line"] {
             if acc.cov_get(&format!("plumbing:nonempty:{}", l)) < 50 {
